@@ -359,7 +359,7 @@ fn chunker_config_from_params<R>(
                 && p.max_chunk_size >= 1
                 && p.min_chunk_size <= p.max_chunk_size
                 && p.rolling_hash_window_size <= p.max_chunk_size
-                && (1..=32).contains(&p.chunk_filter_bits)
+                && (1..=30).contains(&p.chunk_filter_bits)
         }
         Err(_) => true,
     };
